@@ -383,8 +383,15 @@ def build_or_violation(run, names, flavour='n'):
 
 # ---------------------------------------------------------------------------------------------------------
 # symx steps
+def intro_path(intro_exe=None):
+    """The table dump of the current tree; keyed by the introspection binary (its name carries the hash of its source and flags), so that a changed
+    dump format never meets a stale file.  Without an argument: the most recent dump of the tree."""
+    if intro_exe: return os.path.join(tree_dir(), 'introspect.%s.json' % os.path.basename(intro_exe).split('.')[-1])
+    c = sorted(glob.glob(os.path.join(tree_dir(), 'introspect.*.json')), key=os.path.getmtime)
+    return c[-1] if c else os.path.join(tree_dir(), 'introspect.none.json')
+
 def run_symx(run, prop, intro_exe):
-    intro = os.path.join(tree_dir(), 'introspect.json')
+    intro = intro_path(intro_exe)
     if not os.path.exists(intro):
         p = subprocess.run([intro_exe], stdout=subprocess.PIPE, stderr=subprocess.PIPE)
         if p.returncode != 0:
@@ -404,12 +411,12 @@ def run_symx(run, prop, intro_exe):
         run.fails.append(dict(kind='symx', symx_property=prop, key=v['key'], msg=v['what'], detail=v))
 
 def factors_file(intro_exe):
-    intro = os.path.join(tree_dir(), 'introspect.json')
+    intro = intro_path(intro_exe)
     if not os.path.exists(intro):
         p = subprocess.run([intro_exe], stdout=subprocess.PIPE)
         if p.returncode != 0: raise RuntimeError('introspect died')
         open(intro + '.tmp', 'wb').write(p.stdout); os.replace(intro + '.tmp', intro)
-    fa = os.path.join(tree_dir(), 'factors.txt')
+    fa = os.path.join(tree_dir(), 'factors.%s.%s.txt' % (os.path.basename(intro_exe).split('.')[-1], sha(open(os.path.join(VERIF, 'tools', 'symx.py'), 'rb').read())[:8]))
     if not os.path.exists(fa) or not os.path.exists(fa + '.systems'):
         subprocess.check_call([sys.executable, os.path.join(VERIF, 'tools', 'symx.py'), 'factors', intro, fa])
     return fa
